@@ -3,7 +3,9 @@ package c13
 
 import (
 	"bytes"
+	"crypto/sha256"
 	"fmt"
+	"strings"
 	"testing"
 
 	"github.com/0chain/common/core/util/wmpt"
@@ -233,4 +235,103 @@ func run(rt *rapid.T) {
 func TestRollback(t *testing.T) {
 	ev.Rapid(t, 1500, 20000)
 	rapid.Check(t, run)
+}
+
+// Large batches: a checkpoint of a few hundred keys and one rolled-back commit that saves more than a thousand nodes
+// (every checkpoint key deleted and re-added unchanged, or every value changed, plus several hundred new keys).
+func TestLargeRollback(t *testing.T) {
+	ev.Rapid(t, 10, 40)
+	rapid.Check(t, func(rt *rapid.T) {
+		db := memkv.New()
+		var m *wmkit.Machine
+		m = wmkit.New(db, func(f string, a ...any) {
+			h := m.Log
+			if len(h) > 12 {
+				h = append(append([]string{}, h[:6]...), append([]string{"..."}, h[len(h)-6:]...)...)
+			}
+			rt.Fatalf("%s\nhistory (%d steps): %s", fmt.Sprintf(f, a...), len(m.Log), strings.Join(h, "; "))
+		})
+		ncp := gen.Uniform(rt, 180, 450, "ncheckpoint")
+		if gen.Chance(rt, 60, "bigcheckpoint") {
+			ncp = gen.Uniform(rt, 450, 700, "ncheckpointbig") // replacing all of these stages more than 1024 nodes
+		}
+		nnew := gen.Uniform(rt, 300, 800, "nnew")
+		key := func(i int) []byte { h := sha256.Sum256([]byte(fmt.Sprintf("large-rollback/%d", i))); return h[:] }
+		counter := 0
+		for i := 0; i < ncp; i++ {
+			m.Update(key(i), wmkit.GenValue(rt, i, &counter, true))
+		}
+		m.Commit(gen.Pick(rt, []int{0, 1, 2, 64}, "cplevel"))
+		if gen.Chance(rt, 60, "cpgc") {
+			m.GC()
+		}
+		cpRoot := append([]byte(nil), m.T.Root()...)
+		cpWeight := m.T.Weight()
+		cpModel := map[string]refwmpt.Entry{}
+		for k, v := range m.Model {
+			cpModel[k] = v
+		}
+		entry := gen.Pick(rt, []string{"Rollback", "RollbackTrie"}, "entry")
+		m.Logf("SaveRoot")
+		m.T.SaveRoot()
+		batch := gen.Pick(rt, []string{"re-add-identical", "change-all", "mixed"}, "batch")
+		for i := 0; i < ncp; i++ {
+			e := m.Model[string(key(i))]
+			switch {
+			case batch == "re-add-identical" || (batch == "mixed" && i%2 == 0):
+				m.Delete(e.Key)
+				m.Rewrite(e)
+			default:
+				m.Update(e.Key, wmkit.GenValue(rt, i, &counter, true))
+			}
+		}
+		for i := 0; i < nnew; i++ {
+			m.Update(key(ncp+i), wmkit.GenValue(rt, i, &counter, true))
+		}
+		before := keysOf(db)
+		m.Commit(gen.Pick(rt, []int{0, 1, 2, 64}, "clevel"))
+		after := keysOf(db)
+		gcBetween := gen.Chance(rt, 50, "gcbetween")
+		if gcBetween {
+			m.GC()
+		}
+		m.Logf("%s", entry)
+		if entry == "Rollback" {
+			m.T.Rollback()
+		} else {
+			m.T.RollbackTrie(wmpt.NewHashNode(append([]byte(nil), cpRoot...), cpWeight))
+		}
+		m.Model = cpModel
+		m.Dirty = false
+		if got := m.T.Root(); !bytes.Equal(got, cpRoot) || m.T.Weight() != cpWeight {
+			m.Fail("after %s: Root() = %x weight %d, checkpoint %x weight %d", entry, got, m.T.Weight(), cpRoot, cpWeight)
+		}
+		check := func(when string) {
+			w := refwmpt.WalkFrom(cpRoot, db.Getter())
+			if len(w.Missing) > 0 || len(w.Problems) > 0 {
+				m.Fail("%s: checkpoint root does not resolve from storage: %d nodes missing (first %v), problems %v", when, len(w.Missing), first(w.Missing), w.Problems)
+			}
+			wmkit.ObserveTrie(wmkit.Reopened(db, cpRoot, cpWeight), cpModel, nil, m.Fail, when+": trie reopened at the checkpoint")
+		}
+		check("after " + entry)
+		left := 0
+		for k := range after {
+			if !before[k] && db.Has([]byte(k)) {
+				left++
+			}
+		}
+		if left > 0 {
+			m.Fail("after %s: %d nodes created only by the rolled-back commit are still in storage", entry, left)
+		}
+		m.GC()
+		check("after rollback and a further collection pass")
+		ev.Case(fmt.Sprintf("large/%d/%d/%s/%s/%v", ncp, nnew, batch, entry, gcBetween), len(after)-len(before) > 1024 || ncp+nnew > 700, "large-batch", "batch:"+batch, "entry:"+entry)
+	})
+}
+
+func first(xs []string) []string {
+	if len(xs) > 2 {
+		return xs[:2]
+	}
+	return xs
 }
